@@ -445,6 +445,31 @@ func runC04(e *Env) error {
 				}
 			}
 		}
+		// dense graphs over 4 tables (the complete graph with and without self loops): every split created / dropped /
+		// kept, two input orders - change sets of 13 and more atomic changes (an unstable sort shows from there on)
+		for _, self := range []bool{false, true} {
+			var edges []int
+			for k := 0; k < 16; k++ {
+				if self || k/4 != k%4 {
+					edges = append(edges, k)
+				}
+			}
+			for rm := 0; rm < 81; rm++ {
+				role := make([]int, 4)
+				x := rm
+				for i := range role {
+					role[i] = x % 3
+					x /= 3
+				}
+				for _, ka := range []bool{true, false} {
+					for _, p := range [][]int{{0, 1, 2, 3}, {3, 1, 0, 2}} {
+						for _, d := range []string{"mysql", "postgres", "tidb"} {
+							cases = append(cases, c04Case{N: 4, Edges: edges, Role: role, KeptAdd: ka, Perm: p, Dialect: d, Extra: rm%2 == 1})
+						}
+					}
+				}
+			}
+		}
 		// larger random graphs
 		nr := 300
 		if e.Thorough() {
